@@ -53,6 +53,10 @@ def gen(tier, rng, harness=None):
         ts, gs = coregen.gen_core(rng)
         a = coregen.args(ts, gs)
         lines += ["core.reparse " + a, "!core.rt " + a]
+    from . import core2gen
+    for _ in range(n):
+        ts, gs = core2gen.gen_core2(rng)
+        lines += ["core2.reparse %s %s" % (ts, gs), "!core2.rt %s %s" % (ts, gs)]
     for t in modprops.corpus_texts():
         lines.append("!mod.stable - %s" % hx(t))
     for m, text, sk in modprops.gen_modules(rng, n):
